@@ -9,6 +9,12 @@
 open Model
 open Conv
 
+(* which variant of the to_arith model mirrors the code in /repo:
+     Cur = as shipped (remove_ext keeps only the outermost extension kind: finding roundtrip:mixed-ext-chain);
+     Fix = with patches/0001-fix-to_arith-mixed-extension-chain.diff applied (theorem arith_roundtrip_fixed).
+   Flip to Fix together with the fix: commit in /repo. *)
+let code_variant = Cur
+
 let rec arith_of_sexp (x : Sexp.t) : arith =
   let open Sexp in
   let a = arith_of_sexp in
@@ -190,15 +196,15 @@ let handle_roundtrip id fs =
   let impl_a = Sexp.to_string (Sexp.field1 "impl_arith" fs) and impl_b = Sexp.to_string (Sexp.field1 "impl_back" fs) in
   let syms = parse_syms (Sexp.field "syms" fs) in
   let vals = Sexp.field "vals" fs in
-  let ma = to_arith e in
-  let mb = roundtrip e in
+  let ma = to_arith_v code_variant e in
+  let mb = roundtrip_v code_variant e in
   let diffs = ref [] in
   let add s = diffs := s :: !diffs in
   if show_res_arith ma <> impl_a then add (Printf.sprintf "to_arith: impl %s model %s" impl_a (show_res_arith ma));
   if show_res_expr mb <> impl_b then add (Printf.sprintf "from_arith(to_arith): impl %s model %s" impl_b (show_res_expr mb));
   let (mismatch, differ, n) = check_vals syms vals (Ok e) mb in
   (match mismatch with Some m -> add ("value: " ^ m) | None -> ());
-  let in_domain = wt e && convertible_shape e in
+  let in_domain = wt e && roundtrip_domain code_variant e in
   let cls = if convertible e then "uniform-ext" else "mixed-ext-chain" in
   if in_domain then begin
     let back = (try Some (expr_of_sexp (Sexp.field1 "impl_back" fs)) with _ -> None) in
